@@ -43,8 +43,8 @@ Definition wB : func := Func ["xs"; "c"] None
    SIf1 (ECompare [CGt] [EVar "c"; zlit 0]) [SAssign (PVar "x") (zlit 1)];
    SReturn (ERef (EVar "xs") (zlit 0))].
 
-Theorem dce_as_coded_refuted :
-  changes [("g2", g2); ("f", wB)] "f" (dce_as_coded [("g2", g2); ("f", wB)]) [CList [znum 5; znum 6]; znum 1].
+Theorem dce_unrepaired_refuted :
+  changes [("g2", g2); ("f", wB)] "f" (dce_unrepaired [("g2", g2); ("f", wB)]) [CList [znum 5; znum 6]; znum 1].
 Proof. exists wB, (znum 7), (znum 5). vm_compute. repeat split; reflexivity. Qed.
 
 (* g(zs): ws = zs; ws[0] = 7; return 0
@@ -54,8 +54,8 @@ Definition galias : func := Func ["zs"] None
 Definition wC : func := Func ["xs"] None
   [SAssign (PVar "t") (ECall "g" [EVar "xs"]); SReturn (ERef (EVar "xs") (zlit 0))].
 
-Theorem dce_purity_as_coded_refuted :
-  changes [("g", galias); ("f", wC)] "f" (dce_as_coded [("g", galias); ("f", wC)]) [CList [znum 5; znum 6]].
+Theorem dce_purity_unrepaired_refuted :
+  changes [("g", galias); ("f", wC)] "f" (dce_unrepaired [("g", galias); ("f", wC)]) [CList [znum 5; znum 6]].
 Proof. exists wC, (znum 7), (znum 5). vm_compute. repeat split; reflexivity. Qed.
 
 (* xs = [1, 2]; ys = xs; ys[0] = 5; return xs[0]: replacing the reads of xs by the
@@ -79,8 +79,15 @@ Proof. exists wD, (znum 5), (znum 1). vm_compute. repeat split; reflexivity. Qed
 Definition wF : func := Func ["y"; "xs"] None
   [SAssign (PVar "i") (EVar "y"); SFor (PVar "i") (EVar "xs") [SPass]; SReturn (EVar "i")].
 
-Theorem copyprop_for_target_refuted : changes [("f", wF)] "f" copyprop_as_coded [znum 1; CList [znum 10; znum 20]].
+Theorem copyprop_for_target_unrepaired_refuted : changes [("f", wF)] "f" copyprop_unrepaired [znum 1; CList [znum 10; znum 20]].
 Proof. exists wF, (znum 20), (znum 1). vm_compute. repeat split; reflexivity. Qed.
+
+(* with the repairs that are in /repo now, the passes as coded leave these witnesses alone *)
+Example dce_as_coded_keeps_witnesses :
+  dce_as_coded [("g2", g2); ("f", wB)] wB = [SAssign (PVar "x") (ECall "g2" [EVar "xs"]); SReturn (ERef (EVar "xs") (zlit 0))] /\
+  dce_as_coded [("g", galias); ("f", wC)] wC = f_body wC /\
+  copyprop_as_coded wF = f_body wF.
+Proof. vm_compute. repeat split; reflexivity. Qed.
 
 (* the hypotheses of the soundness theorems are satisfiable: the repaired,
    re-checked passes do change the witnesses (to equivalent programs) *)
